@@ -100,7 +100,7 @@ def cases(ctx):
         for text, truth in [('f("x")', ['f']), ('a#c', ['a']), ('"s"in x', ['x']), ('notx', ['notx']), ('in1', ['in1']), ('r"raw"', []), ('r', ['r']),
                             ('r "s"', ['r']), ('1a', ['a']), ('x.y(z)', ['x', 'y', 'z']), ('%a b%%c.d%', ['%a b%', '%c.d%']), ('x=>x+y', ['x', 'x', 'y']),
                             ('a[b]=c;d+=e\ndel f[g]', list('abcdefg')), ('not in if else and or True False None del', []), ('', []), ('# only names here', []),
-                            ('(p, q) => p | g(q)', ['p', 'q', 'p', 'g', 'q']), ('"a" \'b\' r"c"', []), ('x\r\ny', ['x', 'y'])]:
+                            ('(p, q) => p | g(q)', ['p', 'q', 'p', 'g', 'q']), ('%a%\n%b%', ['%a%', '%b%']), ('"a" \'b\' r"c"', []), ('x\r\ny', ['x', 'y'])]:
             yield ('direct', text, truth)
     for _ in range(ctx.scale(12000, 150000)):
         yield ('gen', rnd.getrandbits(48))
@@ -187,7 +187,9 @@ def run_case(case, ctx):
     # (b) illegal character spliced into a gap that is not inside a comment
     if gaps and '#' not in text:
         k = r.randrange(len(gaps))
-        bad = r.choice(['$', '?', '\\', '~', '`', '\x00', '\xa0', '!', '&'])
+        bad = r.choice(['$', '?', '\\', '~', '`', '\x00', '\xa0', '!', '&', '%', '%', ' % '])
+        if '%' in bad and '%' in text[gaps[k]:].split('\n')[0]:
+            bad = '$'        # a later % on the same line would close a %...% name: not a lexical error
         t2 = text[:gaps[k]] + bad + text[gaps[k]:]
         exp = []
         n_before = sum(1 for t in types[:k] if t == 'NAME')
